@@ -169,7 +169,7 @@ def run_check(tier, seed):
     r = run.rng
     basic.load_theory('logic_base')
     thys = ['logic', 'set', 'function', 'nat'] if tier == 'quick' else ['logic_base', 'logic', 'set', 'function', 'nat', 'int', 'list', 'order', 'real', 'hoare', 'lattice']
-    steps = library_steps(run, thys, r, 12 if tier == 'quick' else 40, budget_s=None if tier == 'quick' else 600)
+    steps = library_steps(run, thys, r, 12 if tier == 'quick' else 40, budget_s=None if tier == 'quick' else 400)
     cap = 500 if tier == 'quick' else 2500
     if len(steps) > cap:
         r.shuffle(steps)
@@ -179,7 +179,7 @@ def run_check(tier, seed):
     import time
     t_judge = time.time()
     for rule, args, prev_ths, where, ctx_info in steps:
-        if tier != 'quick' and time.time() - t_judge > 700:
+        if tier != 'quick' and time.time() - t_judge > 500:
             run.stat('judging_budget_reached')
             break
         if ctx_info != cur_ctx:
@@ -324,7 +324,7 @@ def run_check(tier, seed):
             return b
         t_stage = time.time()
         for name, th in cands[:(25 if tier == 'quick' else 400)]:
-            if tier != 'quick' and time.time() - t_stage > 400:
+            if tier != 'quick' and time.time() - t_stage > 300:
                 run.stat('higher_order_budget_reached_after:%d' % ho_done)
                 break
             tyinst = {v.name: nat for v in th.prop.get_stvars()}
@@ -385,7 +385,7 @@ def run_check(tier, seed):
         ns = [Var('m', NatType), Var('n', NatType)]
         t_stage = time.time()
         for k in range(24 if tier == 'quick' else 300):
-            if tier != 'quick' and time.time() - t_stage > 300:
+            if tier != 'quick' and time.time() - t_stage > 200:
                 run.stat('auto_budget_reached_after:%d' % auto_done)
                 break
             name = r.choice(rules_)
